@@ -1,6 +1,7 @@
 package main
 
 import (
+	"math"
 	"sort"
 	"fmt"
 	"os"
@@ -176,7 +177,7 @@ func genC18(e *emitter, tier string) {
 	// an initializer that carries NO payload at all (every data field empty), with its own dims, without dims
 	// (a scalar), with dims [0] / [1] / [2]; for every element type code
 	for ti := 0; ti < 3; ti++ {
-		for _, d := range [][]int64{nil, {}, {0}, {1}, {2}, {1, 1}} {
+		for _, d := range [][]int64{nil, {}, {0}, {1}, {2}, {1, 1}, {0, -1}, {-1, 0}, {2, 0, -3}, {0, 4, -1}, {0, 0}, {0, 1 << 40}, {-1}, {-1, -1}} {
 			for _, code := range []int32{-2, 1, 2, 3, 4, 5, 6, 7, 9, 10, 11, 12, 13, 16} {
 				d, code := d, code
 				e.emit(loadCase("mutate:no-payload", mut(func(mp *onnx.ModelProto) {
@@ -225,6 +226,26 @@ func genC18(e *emitter, tier string) {
 				mp.Graph.Input = append(mp.Graph.Input, mkValueInfo(VInfoJ{Name: "s", Dt: "f32", Dims: dims}))
 			}
 		}), fmt.Sprint("scalar ", dims)))
+	}
+	// the element type of every declared input and output: every code from below zero to beyond the table,
+	// and the extremes of the wire type
+	for _, et := range []int32{math.MinInt32, -1000, -2, -1, 0, 1, 7, 16, 17, 18, 100, math.MaxInt32} {
+		et := et
+		e.emit(loadCase("mutate:elem_type", mut(func(mp *onnx.ModelProto) {
+			if tt := mp.Graph.Input[0].GetType().GetTensorType(); tt != nil {
+				tt.ElemType = et
+			}
+		}), fmt.Sprint("input ", et)))
+		e.emit(loadCase("mutate:elem_type", mut(func(mp *onnx.ModelProto) {
+			for _, o := range mp.Graph.Output {
+				if o.Type == nil {
+					o.Type = &onnx.TypeProto{Value: &onnx.TypeProto_TensorType{TensorType: &onnx.TypeProto_Tensor{}}}
+				}
+				if tt := o.GetType().GetTensorType(); tt != nil {
+					tt.ElemType = et
+				}
+			}
+		}), fmt.Sprint("output ", et)))
 	}
 	e.emit(loadCase("mutate:graph", mut(func(mp *onnx.ModelProto) { mp.Graph = nil }), "no graph"))
 	e.emit(loadCase("mutate:graph", mut(func(mp *onnx.ModelProto) { mp.Graph.Initializer = append(mp.Graph.Initializer, &onnx.TensorProto{}) }), "empty initializer"))
